@@ -216,6 +216,14 @@ func (fc *FuncCtx) parseModifies1(env *Env, ent0 string) []modLoc {
 				out = append(out, modLoc{kind: "cell", cell: lv, field: -1})
 				continue
 			}
+			// a local variable of the function under verification (call-site modifies)
+			if env.at != nil {
+				if a := fc.resolveLocal(x.Name, env.at); a != nil && !fc.escaping[a] {
+					et := a.Type().Underlying().(*types.Pointer).Elem()
+					out = append(out, modLoc{kind: "cell", cell: &LValue{Kind: lvCell, Cell: a, RootTy: et, Ty: et}, field: -1})
+					continue
+				}
+			}
 			v := fc.eval(env, x)
 			if v.LV != nil && v.T == "" {
 				out = append(out, modLoc{kind: "cell", cell: v.LV, field: -1})
@@ -601,6 +609,15 @@ func (fc *FuncCtx) callFunction(x *ssa.Call, fn *ssa.Function, args []Val, bindi
 	}
 	if ss != nil {
 		benv := fc.bodyEnv(pre, x.Block())
+		// the actual arguments are visible as recv, arg0, arg1, ...
+		first := 0
+		if fn.Signature.Recv() != nil && len(args) > 0 {
+			benv.vars["recv"] = args[0]
+			first = 1
+		}
+		for i := first; i < len(args); i++ {
+			benv.vars[fmt.Sprintf("arg%d", i-first)] = args[i]
+		}
 		for j, r := range ss.Requires {
 			fc.oblige(fmt.Sprintf("%s/sitepre%d", name, j), "pre", reach, fc.evalBool(benv, r.E), pos, r.Text)
 		}
@@ -932,6 +949,10 @@ func (fc *FuncCtx) execInvoke(x *ssa.Call, st *State, reach string) {
 	}
 	if ss != nil {
 		benv := fc.bodyEnv(pre, x.Block())
+		benv.vars["recv"] = recv
+		for i := range args {
+			benv.vars[fmt.Sprintf("arg%d", i)] = args[i]
+		}
 		for j, r := range ss.Requires {
 			fc.oblige(fmt.Sprintf("call.%s/sitepre%d", site, j), "pre", reach, fc.evalBool(benv, r.E), x.Pos(), r.Text)
 		}
